@@ -71,7 +71,7 @@ func runC02(c *Ctx, r *Rec) {
 		}
 	}
 	if search == nil {
-		r.undecided("bind", "collection."+set.Obj().Name()+"/search-helper", "", "no private method (value) -> (int, bool) found")
+		r.skip("bind", "collection."+set.Obj().Name()+"/search-helper", "", "no private method (value) -> (int, bool) of the set found: the rules about the searched position, the one order and the search step are bound to that design and are not evaluated")
 		return
 	}
 	searchFn := c.funcOf(search)
@@ -265,7 +265,15 @@ func checkBinarySearch(c *Ctx, r *Rec, info *types.Info, set *types.Named, fd *a
 	case len(carried) == 2 && len(ones) == 1 && len(ns) == 1:
 		lKey, uKey = ones[0], ns[0]
 	default:
-		if len(ones) != 1 || len(ns) == 0 {
+		zeros := 0
+		for _, key := range carried {
+			if p0[0].State[key].Lin.equal(k(0)) {
+				zeros++
+			}
+		}
+		if len(ones) == 0 && zeros >= 1 && len(ns) >= 1 {
+			skip("a zero-based (half-open) interval: another formulation of the search")
+		} else if len(ones) != 1 || len(ns) == 0 {
 			fail("the search does not start from the whole list: the interval variables must start at 1 and at the size of the set")
 		} else {
 			skip(fmt.Sprintf("%d loop-carried interval variables", len(carried)))
